@@ -36,7 +36,7 @@ def floors(tier):
     return {"cases": 20000, "cases_with_2plus_errors": 5000, "cases_context_depth2": 500, "invalid_schemas": 2000,
             "proxy_controls_touched": 500, "via_dollar_schema": 2000, "with_format_checker": 2000,
             "best_match_is_descendant": 500, "best_match_is_toplevel": 2000,
-            "reused_validator_sequences": 1000, "root_reference_objects": 500, "one_reference_under_two_bases": 100,
+            "reused_validator_sequences": 1000, "root_reference_objects": 500, "one_reference_under_two_bases": 100, "calls_while_an_iteration_is_suspended": 250,
             "fault_cases": 2000, "fault_after_first_error": 300, "fault_before_first_error": 300,
             "explicit_class_with_foreign_dollar_schema": 1000, "non_object_whole_schemas": 20, "cases_exotic_containers": 800, "repeats_after_a_failed_call": 40}
 
@@ -333,6 +333,68 @@ def reused_validator_sequence(ctx, d, arr, insts):
                 return
 
 
+def while_an_iteration_is_suspended(ctx):
+    """The entry points agree with each other (and with a fresh validator) also while an earlier iter_errors() of the same
+    validator is suspended mid-way - for schemas whose references all stay inside the one document (no nested identifiers,
+    no other documents: nothing a suspended iteration holds can be relevant to another call)."""
+    import jsonschema
+    T = {"type": "integer"}
+    shapes = [
+        ({"properties": {"a": {"$ref": "#/definitions/t"}, "b": {"$ref": "#/definitions/t"}}, "definitions": {"t": T}},
+         [{"a": "x"}, {"a": "x", "b": "y"}, {"b": None, "a": None}, {"a": 1, "b": "y"}, {"a": 1}]),
+        ({"items": {"$ref": "#/definitions/t"}, "definitions": {"t": {"type": "integer", "enum": [1, 2]}}},
+         [["x"], ["x", "y"], [None, None], [1, "x"], [3], [1, 2]]),
+        ({"$ref": "#/definitions/t", "definitions": {"t": {"type": "object", "properties": {"n": {"$ref": "#/definitions/t"}, "v": T}}}},
+         [{"v": "x"}, {"n": {"v": "x"}}, {"n": {"n": {"v": None}}, "v": None}, 5, {"v": 1}]),
+        ({"properties": {"a": {"items": {"$ref": "#"}}, "v": T}},
+         [{"v": "x"}, {"a": [{"v": "x"}]}, {"a": [{"v": None}, {"v": None}], "v": None}, {"a": [{"a": [{"v": "s"}]}]}, {"v": 2}]),
+        ({"additionalProperties": {"$ref": "#/definitions/t"}, "definitions": {"t": {"type": "string", "maxLength": 1}}},
+         [{"k": 1}, {"k": 1, "l": 2}, {"k": "toolong", "l": "toolong"}, {"k": "s"}]),
+    ]
+    n = 0
+    for d in impl.DRAFTS:
+        cls = impl.CLS[d]
+        for schema, insts in shapes:
+            for inst in insts:
+                for take in (1, 2):
+                    for other in [inst] + [x for x in insts if x is not inst][:2]:
+                        n += 1
+                        if not ctx.mine(n):
+                            continue
+                        want_inst = fps(cls(schema).iter_errors(inst))
+                        want_other = fps(cls(schema).iter_errors(other))
+                        V = cls(schema)
+                        it = V.iter_errors(inst)
+                        taken = []
+                        for _ in range(take):
+                            try:
+                                taken.append(next(it))
+                            except StopIteration:
+                                break
+                        if len(taken) < take:
+                            continue          # nothing is suspended: the iteration is over
+                        case = {"draft": d, "schema": schema, "instance": other, "suspended_over": inst, "errors_taken": take, "suspended_iteration": True}
+                        ctx.count("calls_while_an_iteration_is_suspended")
+                        ctx.case([d, schema, inst, other, take, "suspended"], nontrivial=bool(want_other))
+                        try:
+                            iv = V.is_valid(other)
+                            st, r = run_ep(lambda: V.validate(other))
+                            errs = fps(V.iter_errors(other))
+                            stm, rm = run_ep(lambda: jsonschema.validate(other, schema, cls=cls))
+                            rest = list(it)
+                        except Exception as e:
+                            ctx.violation("entry-point-exception", case, "%s: %s" % (type(e).__name__, str(e)[:120]))
+                            continue
+                        if errs != want_other or iv != (not want_other) or (st == "error") != bool(want_other) or (stm == "error") != bool(want_other):
+                            ctx.violation("suspended-iteration-changes-results", case,
+                                          "while an iteration over %r is suspended after %d error(s): is_valid=%s validate=%s iter_errors=%d error(s) "
+                                          "module validate=%s; a fresh validator yields %d error(s)" % (inst, take, iv, st, len(errs), stm, len(want_other)))
+                            continue
+                        if fps(taken + rest) != want_inst:
+                            ctx.violation("suspended-iteration-changes-results", case, "the suspended iteration, resumed after the other calls, yields %d error(s) in all; "
+                                          "uninterrupted it yields %d" % (len(taken) + len(rest), len(want_inst)))
+
+
 def same_reference_under_two_bases(ctx):
     """One reference string standing under two different base URIs in one schema designates two different schemas; instances
     that visit only one of the places, in either order, on one validator object and through the module-level function."""
@@ -486,6 +548,7 @@ def run(ctx):
     if ctx.shard == 1 % ctx.nshards:
         after_a_failed_call(ctx)
     same_reference_under_two_bases(ctx)
+    while_an_iteration_is_suspended(ctx)
     # whole schemas that are neither objects nor booleans, given to module-level validate() WITHOUT a class (the latest
     # draft is chosen) and with every explicit class: SchemaError before the instance is looked at
     if ctx.shard == 0:
@@ -554,6 +617,9 @@ def replay(ctx, rec):
     C = Cmp(ctx)
     if c.get("after_a_failed_call"):
         after_a_failed_call(ctx)
+        return
+    if c.get("suspended_iteration"):
+        while_an_iteration_is_suspended(ctx)      # small and deterministic: the whole family again
         return
     if c.get("fault"):
         fc = None
